@@ -7,6 +7,7 @@ import (
 	"go/constant"
 	"go/token"
 	"go/types"
+	"os"
 	"sort"
 	"strings"
 
@@ -589,6 +590,8 @@ func transientTaint(v ssa.Value) (bool, string) {
 type taintCfg struct {
 	sanitizer     func(name string) bool // call results that are clean whatever the arguments
 	convertCopies bool                   // string <-> []byte conversions make a copy (true for aliasing, irrelevant for content)
+	callersOf     func(fn *ssa.Function) []ssa.CallInstruction // when set: a parameter is tainted if some caller passes a tainted argument
+	paramDepth    int
 }
 
 // taintWalk: does v derive from bytes of a log record (FieldSetExtractor.Extract, LogFieldLocator.Get, StringFromBytes,
@@ -674,6 +677,11 @@ func taintWalk(v ssa.Value, cfg taintCfg) (bool, string) {
 						return true
 					}
 				}
+				// … or if it returns something that is record-backed by itself (NewRecord returns StringFromBytes(backbuf))
+				if returnsSource(f, cfg, 0) {
+					src = anchorName(f)
+					return true
+				}
 			}
 			return false
 		case *ssa.Convert:
@@ -688,6 +696,36 @@ func taintWalk(v ssa.Value, cfg taintCfg) (bool, string) {
 			if strings.HasPrefix(x.Name(), "temp") {
 				src = "parameter " + x.Name() + " (transient by contract)"
 				return true
+			}
+			if cfg.callersOf != nil && cfg.paramDepth < 4 && (isSeqType(x.Type()) || isStringSlice(x.Type())) {
+				fn := x.Parent()
+				idx := -1
+				for i, q := range fn.Params {
+					if q == x {
+						idx = i
+					}
+				}
+				sub := cfg
+				sub.paramDepth++
+				for _, site := range cfg.callersOf(fn) {
+					args := site.Common().Args
+					if site.Common().IsInvoke() {
+						// receiver is not among Args for invokes: parameters are shifted by one
+						if idx-1 >= 0 && idx-1 < len(args) {
+							if t, s2 := taintWalk(args[idx-1], sub); t {
+								src = s2 + " via " + anchorName(site.Parent())
+								return true
+							}
+						}
+						continue
+					}
+					if idx >= 0 && idx < len(args) {
+						if t, s2 := taintWalk(args[idx], sub); t {
+							src = s2 + " via " + anchorName(site.Parent())
+							return true
+						}
+					}
+				}
 			}
 			return false
 		case *ssa.MakeSlice:
@@ -721,6 +759,44 @@ func taintWalk(v ssa.Value, cfg taintCfg) (bool, string) {
 		return false
 	}
 	return walk(v, 0), src
+}
+
+var returnsSourceCache = map[*ssa.Function]int{} // 0 unknown, 1 yes, 2 no, 3 in progress
+
+// returnsSource: some string / byte-slice result of f derives from a record-backed source inside f
+func returnsSource(f *ssa.Function, cfg taintCfg, depth int) bool {
+	switch returnsSourceCache[f] {
+	case 1:
+		return true
+	case 2, 3:
+		return false
+	}
+	if depth > 4 {
+		return false
+	}
+	returnsSourceCache[f] = 3
+	found := false
+	eachInstr(f, func(in ssa.Instruction) {
+		r, ok := in.(*ssa.Return)
+		if !ok || found {
+			return
+		}
+		for _, res := range r.Results {
+			if !(isSeqType(res.Type()) || isStringSlice(res.Type())) {
+				continue
+			}
+			if t, _ := taintWalk(res, cfg); t {
+				// parameters named temp* are the caller's business (handled by returnsParam)
+				found = true
+			}
+		}
+	})
+	if found {
+		returnsSourceCache[f] = 1
+	} else {
+		returnsSourceCache[f] = 2
+	}
+	return found
 }
 
 // returnsParam: may (part of) parameter prm flow to a result of f ?
@@ -980,3 +1056,125 @@ func ruleC12R5(c *Ctx) {
 }
 
 var _ = constant.MakeBool
+
+// C12.R6: no record-backed (transient) string is stored into an object that outlives the record: a field of a
+// parameter / receiver / loaded object other than the record itself, a map held by such an object, or a global.
+// Sources and sanitizers as in R3. Universe-wide over the functions that run per record.
+func init() {
+	register("C12", "C12.R6", ruleC12R6)
+	// a parser / transform that keeps a view of a recycled buffer parses later lines against stale bytes:
+	// the same rule is a necessary condition of faithful header parsing (C09) and of exact timestamps (C13)
+	register("C09", "C12.R6", ruleC12R6)
+	register("C13", "C12.R6", ruleC12R6)
+}
+
+var c12R6Reviewed = map[string]string{}
+
+func ruleC12R6(c *Ctx) {
+	_, fns := c.runtimeSet()
+	nSinks := 0
+	callIdx := map[*ssa.Function][]ssa.CallInstruction{}
+	for _, fn := range c.P.universe {
+		for _, site := range callsIn(fn) {
+			for _, cal := range c.P.callees(site) {
+				callIdx[cal] = append(callIdx[cal], site)
+			}
+		}
+	}
+	cfg := taintCfg{
+		sanitizer: func(name string) bool {
+			switch name {
+			case "util.DeepCopyString", "util.DeepCopyStrings", "util.DeepCopyStringFromBytes", "strings.Clone", "fmt.Sprintf", "fmt.Sprint", "strings.Repeat":
+				return true
+			}
+			return false
+		},
+		convertCopies: true,
+		callersOf:     func(fn *ssa.Function) []ssa.CallInstruction { return callIdx[fn] },
+	}
+	taint := func(v ssa.Value) (bool, string) { return taintWalk(v, cfg) }
+	longLived := func(base ssa.Value) (bool, string) {
+		b := resolve(base)
+		for i := 0; i < 6; i++ {
+			switch x := b.(type) {
+			case *ssa.Parameter:
+				return true, "parameter " + x.Name()
+			case *ssa.Global:
+				return true, "global " + x.Name()
+			case *ssa.FreeVar:
+				return true, "captured " + x.Name()
+			case *ssa.FieldAddr:
+				b = resolve(x.X)
+				continue
+			case *ssa.UnOp:
+				b = resolve(x.X)
+				continue
+			case *ssa.IndexAddr:
+				b = resolve(x.X)
+				continue
+			}
+			break
+		}
+		return false, ""
+	}
+	strLike := func(v ssa.Value) bool {
+		return isStringType(v.Type()) || isStringSlice(v.Type())
+	}
+	for _, fn := range fns {
+		eachInstr(fn, func(in ssa.Instruction) {
+			var val ssa.Value
+			where := ""
+			switch x := in.(type) {
+			case *ssa.Store:
+				if !strLike(x.Val) {
+					return
+				}
+				switch a := strip(x.Addr).(type) {
+				case *ssa.FieldAddr:
+					if typeName(a.X.Type()) == "base.LogRecord" {
+						return // the record's own fields live as long as the record
+					}
+					if ok, w := longLived(a.X); ok {
+						val, where = x.Val, "field "+fieldName(a.X.Type(), a.Field)+" of "+w
+					}
+				case *ssa.Global:
+					val, where = x.Val, "global "+a.Name()
+				}
+			case *ssa.MapUpdate:
+				if ok, w := longLived(x.Map); ok {
+					if strLike(x.Key) {
+						nSinks++
+						if t, src := taint(x.Key); t {
+							reportR6(c, fn, in, "map key in "+canonOf(x.Map)+" ("+w+")", src)
+						}
+					}
+					if strLike(x.Value) {
+						val, where = x.Value, "map value in "+canonOf(x.Map)+" ("+w+")"
+					}
+				}
+			}
+			if val == nil {
+				return
+			}
+			nSinks++
+			if t, src := taint(val); t {
+				reportR6(c, fn, in, where, src)
+			}
+		})
+	}
+	c.floor("C12.R6", "stores of strings into long-lived objects in per-record code", nSinks, 3)
+	c.ok("C12.R6", nil, "transient strings do not reach long-lived fields, maps or globals", 0, fmt.Sprintf("%d string stores into long-lived objects examined in %d per-record functions", nSinks, len(fns)))
+}
+
+func reportR6(c *Ctx, fn *ssa.Function, in ssa.Instruction, where, src string) {
+	key := anchorName(fn) + "|" + where
+	if reason, ok := c12R6Reviewed[key]; ok {
+		c.assumed("C12.R6", fn, "transient string stored into "+where, in.Pos(), "reviewed: "+reason)
+		return
+	}
+	if os.Getenv("SLOGCHECK_F6KEYS") != "" {
+		fmt.Printf("R6KEY %q: \"\",\n", key)
+	}
+	c.bad("C12.R6", fn, "transient string stored into "+where, in.Pos(),
+		"a string backed by the record's (pooled, recycled) buffer ("+src+") is kept in an object that outlives the record: after the buffer is reused the stored string silently changes")
+}
